@@ -52,10 +52,12 @@ RULE = ("datasets are drawn from 10 profiles (every profile occurs in both tiers
         "columns, PEP exactly; score to 1e-9 because it passes through text; q-values exactly), row order, leftover files. "
         "Tied scores: rows may be permuted among equal scores only; when an entity has two top PSMs with the same score (any "
         "tied winner is legitimate) only the (spectrum, score) multiset at PSM level is compared. The baseline is compared "
-        "with the extracted model (transparent estimator, integer features, no ensemble: Brew.v; distinct scores: "
+        "with the extracted model (transparent estimator, integer features, per-fold prediction: Brew.v bw_brew_scores; distinct scores: "
         "Confidence.v), its feature columns with the chunk-free specification (columns without missing value, file order), "
-        "ensemble scores with the mean of the learned columns (property oracle alone: ensemble is not in the Coq model; "
-        "float-valued features and the real learner likewise are checked against the baseline only). "
+        "ensemble scores with the mean of the learned columns (property oracle) AND with the extracted model of the ensemble "
+        "branch (Brew.v bw_brew_scores_ens, R2.22: models in fold order, every model scores every row, training sets, the "
+        "averaged scores exactly, integer or quarter-valued features); float-valued features without ensemble and the real "
+        "learner are checked against the baseline only. "
         "A probe on the readers records the chunk sizes in use: a variant whose setting never reached the code is a failure "
         "of the check. distinct = (dataset, variant) pairs; non-trivial = the baseline and the variant ran to the end and "
         "the variant really changed the execution: some configured stream was delivered in >= 2 chunks, or > 1 worker, or "
@@ -825,6 +827,17 @@ def _baseline_vs_model(case, cfg0, got0):
                 e = sum(vals) / len(vals)
                 if abs(obs["scores"][j][r] - e) > 1e-9 * max(1.0, abs(e)):
                     return "ensemble scores (mean of the fold models)"
+        # R2.22: the ensemble branch is in the extracted model (Model/Brew.v bw_brew_scores_ens): fold numbers of the returned
+        # models, every fold model scores every row, training sets, and the averaged scores EXACTLY (integer or quarter-valued
+        # features through the transparent estimator: the float64 sum is exact, np.mean is one rounded division)
+        if obs["features"] and all(ft and ft[0] == "rid" for ft in obs["features"]) and not any(
+                v != v or abs(v) == float("inf") for sc in obs["scores"] for v in sc):
+            cm = dict(cfg0)
+            m, i = c02.compare(cm, ("ok", _fr_obs(obs)))
+            if not c02.same_ens(cm, m, i):
+                bad = "?" if m[0] != "ok" or i[0] != "ok" or "scored" not in m[1] else \
+                    ", ".join(k for k in c02.ENS_KEYS if m[1].get(k) != i[1].get(k))
+                return "brew, ensemble=True (Model/Brew.v bw_brew_scores_ens: fold partition / training sets / models in fold order / exact mean): " + bad
     elif _int_features(case) and obs["features"] and all(ft and ft[0] == "rid" for ft in obs["features"]):
         cm = dict(cfg0)
         m, i = c02.compare(cm, ("ok", _fr_obs(obs)))
